@@ -342,6 +342,9 @@ def op_catalogue(op: dict, log: EventLog, viol: list, stats: Counter) -> None:
         stats["catalogue_loud"] += 1
     else:
         stats["catalogue_exported"] += 1
+        okf, msgf, _ = oracle.function_structure(model)
+        if not okf:
+            viol.append({"sig": f"C16|catalogue_partial_model|pid={pid}", "cls": "catalogue_partial_model", "detail": f"construct {pid} exported without error but the model is partial: {msgf}", "replay_ops": [op]})
         loadable, lmsg = oracle.ort_loadable(model)
         if not loadable:
             # an export the runtime refuses to load is loud at load time, not a silently
